@@ -2,7 +2,7 @@
 """writes SENSITIVITY.md from seeded/*/meta.json and seeded/*/check_*.json"""
 import json, glob, os
 rows = []
-for d in sorted(glob.glob("/verif/seeded/C*_m*")):
+for d in sorted(glob.glob("/verif/seeded/C*m[0-9]")):
     meta = json.load(open(d + "/meta.json"))
     res = {}
     for t in ("quick", "thorough"):
